@@ -1270,3 +1270,29 @@ def ob_sd_assign_resolve_bounded(vc):
 
 
 GLUE_OBLIGATIONS = [ob_sd_assign_resolve_bounded]
+
+
+# ---------------------------------------------------------------------------- header-level option glue, for callers
+
+
+def sd_resolve_options(self):
+    return H.SOMEIPSDHeader(
+        entries=tuple([e.resolve_options(self.options) for e in self.entries]),
+        options=self.options,
+        flag_reboot=self.flag_reboot,
+        flag_unicast=self.flag_unicast,
+        flags_unknown=self.flags_unknown,
+    )
+
+
+def _abs_sd_resolved(vc, name, self):
+    """callers of SOMEIPSDHeader.resolve_options rely on: same flags and options, one
+    resolved entry per entry (element-wise content: entry_resolve_options, proved there;
+    the comprehension itself is checked by the bounded whole-message obligation)"""
+    entries = vc.opaque_seq(name + ".entries", "entry")
+    vc.assume(len(entries) == len(self.entries))
+    return H.SOMEIPSDHeader(entries=entries, options=self.options, flag_reboot=self.flag_reboot, flag_unicast=self.flag_unicast, flags_unknown=self.flags_unknown)
+
+
+CONTRACTS["someip.header.SOMEIPSDHeader.resolve_options"] = sd_resolve_options
+ABSTRACT[sd_resolve_options] = {"gen": _abs_sd_resolved, "raises": ()}
